@@ -4,13 +4,15 @@ PROP = dict(
     title="getSignaturesForAddress paging slices the newest-first history correctly",
     coq_target="Properties/C07.vo",
     harness=[
-        dict(name="gsfa", pkg="./gsfa", run="^TestVerif_C07$",
-             files={"gsfa/zz_verif_c07_test.go": "harness/gsfa/c07_test.go"}, timeout=900, timeout_thorough=2400),
+        dict(name="gsfa", pkg="./gsfa", run="^TestVerif_C07(Shared)?$",
+             files={"gsfa/zz_verif_c07_test.go": "harness/gsfa/c07_test.go",
+                    # addresses that share transactions, requests interleaved on one long-lived set of readers
+                    "gsfa/zz_verif_c07shared_test.go": "harness/gsfa/c07shared_test.go"}, timeout=900, timeout_thorough=2400),
         dict(name="reply", pkg=".", run="^TestVerif_C07Reply$",
              files={"zz_verif_c07reply_test.go": "harness/main/c07reply_test.go"}, timeout=900, timeout_thorough=2400),
     ],
     technique="Coq proof (fold fusion of the nested epoch/record/entry loops into one pass, slice specification, map-order-independent reply, slot window) + differential execution of GsfaReaderMultiepoch and the JSON-RPC handler on indexes written by the real GSFA writer",
-    level_text="Theorems (Coq, no axioms) for all per-epoch histories, record splits, limits, before/until (present or absent) and every map iteration order: the result map of GetBeforeUntil, read newest epoch first and key by key, is the slice after `before` / cut to `limit` / up to `until` of the complete history (nested loops with early exits and the per-record limit pre-check = one pass); the repaired reply assembly lists exactly that slice for every iteration order (refuted for the pinned map-order assembly); the repaired GetBeforeUntilSlot returns only slots in [until,before) and exactly the first `limit` entries of the window; absent epochs are skipped without error. Tie: indexes for every (n8,n6,n5) in {0..4}^3 entries per epoch x record splits are written by the real writer and every (limit,before,until) / slot range is run through the real readers and the handler (each request repeated >= 24x); the observations are checked by the property oracle and by the Coq checker running the proved model.",
+    level_text="Theorems (Coq, no axioms) for all per-epoch histories, record splits, limits, before/until (present or absent) and every map iteration order: the result map of GetBeforeUntil, read newest epoch first and key by key, is the slice after `before` / cut to `limit` / up to `until` of the complete history (nested loops with early exits and the per-record limit pre-check = one pass); the repaired reply assembly lists exactly that slice for every iteration order (refuted for the pinned map-order assembly); the repaired GetBeforeUntilSlot returns only slots in [until,before) and exactly the first `limit` entries of the window; absent epochs are skipped without error. Tie: indexes for every (n8,n6,n5) in {0..4}^3 entries per epoch x record splits are written by the real writer and every (limit,before,until) / slot range is run through the real readers and the handler (each request repeated >= 24x); addresses that SHARE transactions (groups of 2..4 addresses drawn from one pool of transactions, each pushed with 1..k of them) are queried on ONE long-lived set of readers / one running MultiEpoch with the requests of the addresses interleaved (A paged through, B asked at every page end and with every signature of A, the full parameter sweep round-robin, everything again in shuffled order), a differing answer being re-asked on freshly opened readers; the observations are checked by the property oracle and by the Coq checker running the proved model.",
     level_note="Trusted: Coq kernel; the hand-written model C07_Model.v of gsfa-read-multiepoch.go and of the reply loop (tied by the exhaustive small-scope runs); Go map semantics (iteration visits every key once, in any order); forced hypotheses: no I/O error from the index files, until < 2^63 (the code compares `tx.Slot < int(until)`), for slot-window completeness slots non-increasing along the newest-first history and inside their epoch.",
     design_ref="5 (C07)",
     trusted=["model C07_Model.v of gsfa/gsfa-read-multiepoch.go (iterBeforeUntil, iterBeforeUntilSlot) and of the reply assembly in multiepoch-getSignaturesForAddress.go (hand-written; tied by exhaustive small-scope correspondence)",
